@@ -82,7 +82,35 @@ def c_r_order(ctx):
     return problems, fired
 
 
-CONTROLS = {"r_err": c_r_err, "r_probe": c_r_probe, "r_order": c_r_order}
+def c_r_role(ctx):
+    import p_role
+    fx = ctx.fx("F")
+    saved = dict(p_role.SEEDS)
+    p_role.SEEDS.clear()
+    p_role.SEEDS[("xcpv_fixtures::role::entry", 1)] = p_role.SRC
+    p_role.SEEDS[("xcpv_fixtures::role::entry", 2)] = p_role.DST
+    import p_gate, names
+    saved_entry = list(names.ENTRY_POINTS)
+    p_gate.ENTRY_POINTS[:] = ["xcpv_fixtures::role::entry"]
+    try:
+        R = p_role.Roles(fx)
+        R.fns = [f for f in fx.fns.values() if f.path.startswith("xcpv_fixtures::role::")]
+        R.role = {}
+        for k, v in p_role.SEEDS.items():
+            R.role[k] = v
+        R._solve()
+        p_role._roles[id(fx)] = R
+        obs = p_role.role_obs(fx, cfgname="F")
+    finally:
+        p_role.SEEDS.clear()
+        p_role.SEEDS.update(saved)
+        p_gate.ENTRY_POINTS[:] = saved_entry
+        p_role._roles.pop(id(fx), None)
+    byfn = _by_fn([o for o in obs if o.rule == "R-ROLE" and "ANCHOR" not in o.key], "xcpv_fixtures::role::")
+    return _judge(byfn, ["bad_swapped"], ["good_copy"])
+
+
+CONTROLS = {"r_role": c_r_role, "r_err": c_r_err, "r_probe": c_r_probe, "r_order": c_r_order}
 
 
 def run(name, ctx):
